@@ -48,7 +48,8 @@ MaxOf(S) == CHOOSE m \in S : \A x \in S : x <= m
 Physical(c) == IF Below(c, c.start) = {} THEN 0 ELSE MaxOf(Below(c, c.start))
 Logical(c) == IF c.start \in c.stores THEN c.start ELSE 9
 Resolve(c) == IF ViaLink(c) THEN Logical(c) ELSE Physical(c)
-LinkCands(c) == {Logical(c), Physical(c)} \ {0}
+\* (0: under the physical reading the directory may be enclosed by no store at all)
+LinkCands(c) == {Logical(c), Physical(c)}
 
 \* what the code does today with a relative --dir: "." never walks up; ".."
 \* looks at the parent, then at the directory the process stands in (downward!)
